@@ -1099,155 +1099,6 @@ theorem c08_dial_preconditions (addrIsTLS hasPrivate : Bool) :
     dialPre addrIsTLS hasPrivate = none ↔ addrIsTLS = true ∧ hasPrivate = true := by
   cases addrIsTLS <;> cases hasPrivate <;> simp [dialPre]
 
-/-! ### the code regions the model stands for
-Regenerated from /repo's source on every run (`harness/cmd/astfacts` → `OnetVerif/Shapes.lean`): the
-calls that matter for synchronisation and data flow, the lock regions and (for decision logic) the
-conditions, in source order.  A re-ordering, a dropped call or a changed condition breaks these
-obligations even when no sampled input or schedule shows a difference; the check then searches for
-a failing input. -/
-theorem c08_shape_tls_makeVerifier :
-    Shapes.network_tls_makeVerifier =
-   ["mkNonce", "assign:nonce:=mkNonce(suite)", "func{", "defer{", "if:(err==nil)", "else", "}",
-     "if:(len(rawCerts)!=1)", "return:xerrors.New(\"expected exactly one certificate\")",
-     "x509.ParseCertificates", "assign:certs,err:=x509.ParseCertificates(rawCerts[0])",
-     "if:(err!=nil)", "return:err", "if:(len(certs)!=1)",
-     "return:xerrors.New(\"expected exactly one certificate\")", "assign:cert:=certs[0]",
-     "x509.NewCertPool", "assign:self:=x509.NewCertPool()", "self.AddCert",
-     "args:self.AddCert(cert)", "assign:opts:=x509.VerifyOptions{Roots:self}", "cert.Verify",
-     "assign:_,err=cert.Verify(opts)", "if:(err!=nil)",
-     "return:xerrors.Errorf(\"certificate verification: %v\",err)", "if:(them!=nil)",
-     "if:(len(cert.URIs)>0)", "assign:cn:=fmt.Sprintf(\":%v\",pubToCN(them.Public))",
-     "assign:found:=false", "range:_,u:=cert.URIs{",
-     "if:((u.Scheme==\"onet-pubkey\")&&(u.Opaque==cn))", "assign:found=true", "break", "}",
-     "if:!found",
-     "return:xerrors.Errorf(\"No onet-pubkey URIs match the expected public key %v\",pubToCN(them.Public))",
-     "else", "if:(cert.Subject.CommonName!=pubToCN(them.Public))",
-     "return:xerrors.Errorf(\"certificate common-name %v not expected\",cert.Subject.CommonName)",
-     "range:_,x:=cert.Extensions{", "if:oidDedisSig.Equal(x.Id)", "assign:sig=x.Value", "break",
-     "}", "if:(sig==nil)", "return:xerrors.New(\"DEDIS signature not found\")",
-     "assign:cn=cert.Subject.CommonName", "pubFromCN", "assign:pub,err:=pubFromCN(suite,cn)",
-     "if:(err!=nil)", "return:xerrors.Errorf(\"decoding key: %v\",err)",
-     "if:((them!=nil)&&!pub.Equal(them.Public))",
-     "return:xerrors.Errorf(\"certificate common-name %v does not name the expected public key\",cn)",
-     "bytes.NewBuffer", "assign:buf:=bytes.NewBuffer(nonce)", "asn1.Marshal",
-     "assign:subAsn1,err:=asn1.Marshal(cn)", "if:(err!=nil)",
-     "return:xerrors.Errorf(\"marshaling: %v\",err)", "buf.Write", "args:buf.Write(subAsn1)",
-     "buf.Bytes", "schnorr.Verify", "assign:err=schnorr.Verify(suite,pub,buf.Bytes(),sig)",
-     "if:(err!=nil)", "return:xerrors.Errorf(\"certificate verification: %v\",err)",
-     "return:nil", "}", "return:func,nonce"] := rfl
-
-theorem c08_shape_tls_certMaker_get :
-    Shapes.network_tls_certMaker_get =
-   ["if:(len(nonce)!=nonceSize)", "return:nil,xerrors.New(\"nonce is the wrong size\")",
-     "bytes.NewBuffer", "assign:buf:=bytes.NewBuffer(nonce)", "buf.Write",
-     "args:buf.Write(cm.subjDer)", "si.GetPrivate", "buf.Bytes", "schnorr.Sign",
-     "assign:sig,err:=schnorr.Sign(cm.suite,cm.si.GetPrivate(),buf.Bytes())", "if:(err!=nil)",
-     "return:nil,xerrors.Errorf(\"signature verification: %v\",err)",
-     "assign:serial:=new(big.Int)", "random.New", "random.Bits",
-     "assign:r:=random.Bits(128,true,random.New())", "serial.SetBytes",
-     "args:serial.SetBytes(r)", "url.Parse",
-     "assign:uri,err:=url.Parse(fmt.Sprintf(\"onet-pubkey::%v\",cm.subj.CommonName))",
-     "if:(err!=nil)", "return:nil,err", "time.Now", "Now().Add", "time.Now", "Now().Add",
-     "assign:tmpl:=&x509.Certificate{BasicConstraintsValid:true,IsCA:false,ExtKeyUsage:conv{x509.ExtKeyUsageServerAuth,x509.ExtKeyUsageClientAuth},NotAfter:time.Now().Add((2*time.Hour)),NotBefore:time.Now().Add((-5*time.Minute)),SerialNumber:serial,SignatureAlgorithm:x509.ECDSAWithSHA384,Subject:cm.subj,URIs:conv{uri},ExtraExtensions:conv{{Id:oidDedisSig,Critical:false,Value:sig}}}",
-     "if:testNoURIs", "assign:tmpl.URIs=nil", "k.Public", "x509.CreateCertificate",
-     "assign:cDer,err:=x509.CreateCertificate(rand.Reader,tmpl,tmpl,cm.k.Public(),cm.k)",
-     "if:(err!=nil)", "return:nil,xerrors.Errorf(\"certificate: %v\",err)",
-     "x509.ParseCertificates", "assign:certs,err:=x509.ParseCertificates(cDer)", "if:(err!=nil)",
-     "return:nil,xerrors.Errorf(\"certificate: %v\",err)", "if:(len(certs)<1)",
-     "return:nil,xerrors.New(\"no certificate found\")",
-     "return:&tls.Certificate{PrivateKey:cm.k,Certificate:conv{cDer},Leaf:certs[0]},nil"] := rfl
-
-theorem c08_shape_tls_certMaker_getCertificate :
-    Shapes.network_tls_certMaker_getCertificate =
-   ["cm.get", "assign:cert,err:=cm.get(conv(hello.ServerName))", "if:(err!=nil)",
-     "return:nil,xerrors.Errorf(\"\",err)", "return:cert,nil"] := rfl
-
-theorem c08_shape_tls_certMaker_getClientCertificate :
-    Shapes.network_tls_certMaker_getClientCertificate =
-   ["if:(len(req.AcceptableCAs)==0)", "return:nil,xerrors.New(\"\")", "cm.get",
-     "assign:cert,err:=cm.get(req.AcceptableCAs[0])", "if:(err!=nil)",
-     "return:nil,xerrors.Errorf(\"\",err)", "return:cert,nil"] := rfl
-
-theorem c08_shape_tls_pubFromCN :
-    Shapes.network_tls_pubFromCN =
-   ["if:(len(cn)<1)", "return:nil,xerrors.New(\"\")", "assign:tp:=cn[0]", "switch:tp{",
-     "case:'Z'", "hex.DecodeString", "assign:buf,err:=hex.DecodeString(cn[1:])", "if:(err!=nil)",
-     "return:nil,xerrors.Errorf(\"\",err)", "bytes.NewBuffer", "assign:r:=bytes.NewBuffer(buf)",
-     "suite.Point", "assign:pub:=suite.Point()", "pub.UnmarshalFrom",
-     "assign:_,err=pub.UnmarshalFrom(r)", "if:(err!=nil)", "return:nil,xerrors.Errorf(\"\",err)",
-     "return:pub,nil", "default", "encoding.StringHexToPoint",
-     "assign:pub,err:=encoding.StringHexToPoint(suite,cn)", "if:(err!=nil)",
-     "return:nil,xerrors.Errorf(\"\",err)", "return:pub,nil", "}"] := rfl
-
-theorem c08_shape_tls_pubToCN :
-    Shapes.network_tls_pubToCN =
-   ["assign:w:=&bytes.Buffer{}", "pub.MarshalTo", "args:pub.MarshalTo(w)",
-     "return:(\"Z\"+hex.EncodeToString(w.Bytes()))"] := rfl
-
-theorem c08_shape_tls_mkNonce :
-    Shapes.network_tls_mkNonce =
-   ["s.RandomStream", "random.Bytes", "args:random.Bytes(buf[:],s.RandomStream())",
-     "for:bytes.ContainsAny(buf[:],\".[]%\"){", "s.RandomStream", "random.Bytes",
-     "args:random.Bytes(buf[:],s.RandomStream())", "}", "return:buf[:]"] := rfl
-
-theorem c08_shape_tls_newCertMaker :
-    Shapes.network_tls_newCertMaker =
-   ["assign:cm:=&certMaker{si:si,suite:s}", "elliptic.P256", "ecdsa.GenerateKey",
-     "assign:k,err:=ecdsa.GenerateKey(elliptic.P256(),rand.Reader)", "if:(err!=nil)",
-     "return:nil,xerrors.Errorf(\"\",err)", "assign:cm.k=k", "pubToCN",
-     "assign:cm.subj=pkix.Name{CommonName:pubToCN(cm.si.Public)}", "asn1.Marshal",
-     "assign:der,err:=asn1.Marshal(cm.subj.CommonName)", "if:(err!=nil)",
-     "return:nil,xerrors.Errorf(\"\",err)", "assign:cm.subjDer=der", "return:cm,nil"] := rfl
-
-theorem c08_shape_tls_NewTLSListenerWithListenAddr :
-    Shapes.network_tls_NewTLSListenerWithListenAddr =
-   ["NewTCPListenerWithListenAddr",
-     "assign:tcp,err:=NewTCPListenerWithListenAddr(si.Address,suite,listenAddr)",
-     "if:(err!=nil)", "return:nil,xerrors.Errorf(\"tls listener: %v\",err)", "tlsConfig",
-     "assign:cfg,err:=tlsConfig(suite,si)", "if:(err!=nil)",
-     "return:nil,xerrors.Errorf(\"tls config: %v\",err)", "cloneTLSClientConfig",
-     "assign:cfg2:=cloneTLSClientConfig(cfg)", "x509.NewCertPool",
-     "assign:cfg2.ClientCAs=x509.NewCertPool()", "makeVerifier",
-     "assign:vrf,nonce:=makeVerifier(suite,nil)", "assign:cfg2.VerifyPeerCertificate=vrf",
-     "ClientCAs.AddCert", "args:cfg2.ClientCAs.AddCert(&x509.Certificate{RawSubject:nonce})",
-     "return:cfg2,nil", "assign:cfg.GetConfigForClient=func",
-     "assign:cfg.ClientAuth=tls.RequireAnyClientCert", "tls.NewListener",
-     "assign:tcp.listener=tls.NewListener(tcp.listener,cfg)", "return:tcp,nil"] := rfl
-
-theorem c08_shape_tls_NewTLSConn_b3 :
-    Shapes.network_tls_NewTLSConn_b3 =
-   ["if:(them.Address.ConnType()!=TLS)", "return:nil,xerrors.New(\"\")",
-     "if:(us.GetPrivate()==nil)", "return:nil,xerrors.New(\"\")", "tlsConfig",
-     "assign:cfg,err:=tlsConfig(suite,us)", "if:(err!=nil)",
-     "return:nil,xerrors.Errorf(\"\",err)", "makeVerifier",
-     "assign:vrf,nonce:=makeVerifier(suite,them)", "assign:cfg.VerifyPeerCertificate=vrf",
-     "Address.NetworkAddress", "assign:netAddr:=them.Address.NetworkAddress()", "assign:i:=1",
-     "for:(i<=MaxRetryConnect){", "assign:cfg.ServerName=string(nonce)", "tls.DialWithDialer",
-     "assign:c,err=tls.DialWithDialer(&net.Dialer{Timeout:dialTimeout},\"\",netAddr,cfg)",
-     "if:(err==nil)", "assign:conn=&TCPConn{conn:c,suite:suite}", "return:",
-     "assign:err=xerrors.Errorf(\"\",err)", "if:(i<MaxRetryConnect)", "time.Sleep", "assign:i++",
-     "}", "if:(err==nil)", "assign:err=xerrors.Errorf(\"\",ErrTimeout)", "return:"] := rfl
-
-theorem c08_shape_tls_tlsConfig :
-    Shapes.network_tls_tlsConfig =
-   ["newCertMaker", "assign:cm,err:=newCertMaker(suite,us)", "if:(err!=nil)",
-     "return:nil,xerrors.Errorf(\"\",err)",
-     "return:&tls.Config{GetCertificate:cm.getCertificate,GetClientCertificate:cm.getClientCertificate,InsecureSkipVerify:true},nil"] := rfl
-
-theorem c08_shape_router_Router_receiveServerIdentity :
-    Shapes.network_router_Router_receiveServerIdentity =
-   ["c.Receive", "assign:nm,err:=c.Receive()", "if:(err!=nil)",
-     "return:nil,xerrors.Errorf(\"\",err)", "if:(nm.MsgType!=ServerIdentityType)",
-     "return:nil,xerrors.Errorf(\"\",nm.MsgType.String())",
-     "assign:dst:=nm.Msg.(ServerIdentity)", "assign:tcpConn,ok:=c.(TCPConn)", "if:ok",
-     "assign:tlsConn,ok:=tcpConn.conn.(tls.Conn)", "if:ok", "tlsConn.ConnectionState",
-     "assign:cs:=tlsConn.ConnectionState()", "if:(len(cs.PeerCertificates)==0)",
-     "return:nil,xerrors.New(\"\")", "pubFromCN",
-     "assign:pub,err:=pubFromCN(tcpConn.suite,cs.PeerCertificates[0].Subject.CommonName)",
-     "if:(err!=nil)", "return:nil,xerrors.Errorf(\"\",err)", "if:!pub.Equal(dst.Public)",
-     "return:nil,xerrors.New(\"\")", "else", "if:!r.UnauthOk", "return:dst,nil"] := rfl
-
-
 /-! ### the bytes of a key name (`Model/C08Name.lean`): `pubToCN` / `pubFromCN` down to the characters -/
 namespace NameBytes
 
@@ -1454,4 +1305,241 @@ example : hexDecode ([97, 98, 48, 102] : List Nat).tail ≠ some [171, 15] := by
 example : hexDecode [90, 97, 98, 48, 102] = none := by decide
 
 end NameBytes
+
+/-! ### the configuration `tlsConfig` builds, and session resumption -/
+
+/-- the configurations as built: the listener's per-client configuration requires a client certificate,
+carries the verifier made for this client and hands out no session tickets; the dialler's carries its
+verifier (and has no session cache: it never asks for a resumption) -/
+theorem c08_listener_config :
+    perClientCfg = ⟨true, true, true, true⟩ ∧ dialCfg = ⟨true, false, true, true⟩ := ⟨rfl, rfl⟩
+
+/-- **no link without a proof for this handshake**: under the configuration the listener builds, whatever
+the client hello asks for — a full handshake with any certificates, the resumption of any earlier session
+— and whatever sessions exist, the certificates of an established connection passed the verifier that was
+made with *this* connection's nonce.  (Falsified by: session tickets left enabled — crypto/tls does not call
+`VerifyPeerCertificate` on a resumed session; `ClientAuth` weaker than `RequireAnyClientCert`; a per-client
+configuration without the verifier, e.g. set on the wrong copy.) -/
+theorem c08_no_link_without_fresh_proof (s : Suite) (nonce : Nonce) (sessions : List (List Cert)) (h : Hello)
+    (raw : List Cert) (hacc : acceptHello perClientCfg s nonce sessions h = some raw) :
+    verifyPeer s none nonce raw = none := by
+  have full : ∀ r, acceptFull perClientCfg s nonce r = some raw → verifyPeer s none nonce raw = none := by
+    intro r hr
+    simp only [acceptFull, perClientCfg, cloneCfg, tlsConfig, if_true] at hr
+    by_cases he : r.isEmpty = true
+    · simp [he] at hr
+    · simp only [he] at hr
+      by_cases hv : (verifyPeer s none nonce r).isNone = true
+      · simp only [hv, if_true] at hr
+        simp at hr
+        subst hr
+        simpa using hv
+      · simp [hv] at hr
+  cases h with
+  | full r => exact full r hacc
+  | resume i fb =>
+    simp only [acceptHello, perClientCfg, cloneCfg, tlsConfig, if_true] at hacc
+    exact full fb hacc
+
+/-- … over a listener's whole life: connection `j` of a listener that has seen `i` connections before is
+established only on a proof over the nonce `hon (i + j)` drawn for it, whatever hellos arrive in whatever
+order (every later hello may offer a ticket of every earlier connection) -/
+theorem c08_listener_every_link_proved (s : Suite) (hs : List Hello) :
+    ∀ (i : Nat) (sessions : List (List Cert)) (j : Nat) (raw : List Cert),
+      (listen perClientCfg s i sessions hs)[j]? = some (some raw) →
+      verifyPeer s none (.hon (i + j)) raw = none := by
+  induction hs with
+  | nil => intro i sessions j raw h; simp [listen] at h
+  | cons h hs ih =>
+    intro i sessions j raw hj
+    cases j with
+    | zero =>
+      simp only [listen, List.getElem?_cons_zero, Option.some.injEq] at hj
+      exact c08_no_link_without_fresh_proof s (.hon i) sessions h raw hj
+    | succ j =>
+      simp only [listen, List.getElem?_cons_succ] at hj
+      have := ih (i + 1) _ j raw hj
+      have e : i + 1 + j = i + (j + 1) := by omega
+      rw [e] at this
+      exact this
+
+/-- **each of the three fields is needed** (negation witnesses).  With session tickets enabled — the
+configuration before /repo d941b9f — the second connection of a client that proved its key once is
+established on the *first* connection's certificate, whose proof is over the first nonce: refused by this
+connection's verifier, which is never asked.  Without the verifier a certificate without any proof makes
+a link; without the demand for a client certificate no certificate at all does. -/
+theorem c08_config_fields_needed :
+    (∃ raw, acceptHello { perClientCfg with ticketsDisabled := false } ⟨true⟩ (.hon 1)
+        [(certFor .new 2 12 (.hon 0)).toList] (.resume 0 []) = some raw ∧
+        verifyPeer ⟨true⟩ none (.hon 1) raw = some .signature) ∧
+    (∃ raw, acceptHello { perClientCfg with hasVerifier := false } ⟨true⟩ (.hon 1) []
+        (.full ((certFor .new 2 12 (.hon 1)).toList.map fun c => { c with ext := none })) = some raw ∧
+        verifyPeer ⟨true⟩ none (.hon 1) raw = some .sigPresent) ∧
+    (acceptHello { perClientCfg with requireClientCert := false } ⟨true⟩ (.hon 1) [] (.full []) = some [] ∧
+        verifyPeer ⟨true⟩ none (.hon 1) [] = some .oneRaw) := by
+  refine ⟨⟨_, rfl, ?_⟩, ⟨_, rfl, ?_⟩, rfl, ?_⟩ <;> decide
+
+/-- non-vacuity: a client that proves its key on every connection and offers the previous ticket each time
+gets three links, each on a proof over that connection's nonce -/
+example :
+    listen perClientCfg ⟨true⟩ 0 []
+      [.full (certFor .new 2 12 (.hon 0)).toList, .resume 0 (certFor .new 2 12 (.hon 1)).toList,
+       .resume 1 (certFor .new 2 12 (.hon 2)).toList] =
+    [some (certFor .new 2 12 (.hon 0)).toList, some (certFor .new 2 12 (.hon 1)).toList,
+     some (certFor .new 2 12 (.hon 2)).toList] := by decide
+
+/-! ### the code regions the model stands for
+Regenerated from /repo's source on every run (`harness/cmd/astfacts` → `OnetVerif/Shapes.lean`): the
+calls that matter for synchronisation and data flow, the lock regions and (for decision logic) the
+conditions, in source order.  A re-ordering, a dropped call or a changed condition breaks these
+obligations even when no sampled input or schedule shows a difference; the check then searches for
+a failing input. -/
+theorem c08_shape_tls_makeVerifier :
+    Shapes.network_tls_makeVerifier =
+   ["mkNonce", "assign:nonce:=mkNonce(suite)", "func{", "defer{", "if:(err==nil)", "else", "}",
+     "if:(len(rawCerts)!=1)", "return:xerrors.New(\"expected exactly one certificate\")",
+     "x509.ParseCertificates", "assign:certs,err:=x509.ParseCertificates(rawCerts[0])",
+     "if:(err!=nil)", "return:err", "if:(len(certs)!=1)",
+     "return:xerrors.New(\"expected exactly one certificate\")", "assign:cert:=certs[0]",
+     "x509.NewCertPool", "assign:self:=x509.NewCertPool()", "self.AddCert",
+     "args:self.AddCert(cert)", "assign:opts:=x509.VerifyOptions{Roots:self}", "cert.Verify",
+     "assign:_,err=cert.Verify(opts)", "if:(err!=nil)",
+     "return:xerrors.Errorf(\"certificate verification: %v\",err)", "if:(them!=nil)",
+     "if:(len(cert.URIs)>0)", "assign:cn:=fmt.Sprintf(\":%v\",pubToCN(them.Public))",
+     "assign:found:=false", "range:_,u:=cert.URIs{",
+     "if:((u.Scheme==\"onet-pubkey\")&&(u.Opaque==cn))", "assign:found=true", "break", "}",
+     "if:!found",
+     "return:xerrors.Errorf(\"No onet-pubkey URIs match the expected public key %v\",pubToCN(them.Public))",
+     "else", "if:(cert.Subject.CommonName!=pubToCN(them.Public))",
+     "return:xerrors.Errorf(\"certificate common-name %v not expected\",cert.Subject.CommonName)",
+     "range:_,x:=cert.Extensions{", "if:oidDedisSig.Equal(x.Id)", "assign:sig=x.Value", "break",
+     "}", "if:(sig==nil)", "return:xerrors.New(\"DEDIS signature not found\")",
+     "assign:cn=cert.Subject.CommonName", "pubFromCN", "assign:pub,err:=pubFromCN(suite,cn)",
+     "if:(err!=nil)", "return:xerrors.Errorf(\"decoding key: %v\",err)",
+     "if:((them!=nil)&&!pub.Equal(them.Public))",
+     "return:xerrors.Errorf(\"certificate common-name %v does not name the expected public key\",cn)",
+     "bytes.NewBuffer", "assign:buf:=bytes.NewBuffer(nonce)", "asn1.Marshal",
+     "assign:subAsn1,err:=asn1.Marshal(cn)", "if:(err!=nil)",
+     "return:xerrors.Errorf(\"marshaling: %v\",err)", "buf.Write", "args:buf.Write(subAsn1)",
+     "buf.Bytes", "schnorr.Verify", "assign:err=schnorr.Verify(suite,pub,buf.Bytes(),sig)",
+     "if:(err!=nil)", "return:xerrors.Errorf(\"certificate verification: %v\",err)",
+     "return:nil", "}", "return:func,nonce"] := rfl
+
+theorem c08_shape_tls_certMaker_get :
+    Shapes.network_tls_certMaker_get =
+   ["if:(len(nonce)!=nonceSize)", "return:nil,xerrors.New(\"nonce is the wrong size\")",
+     "bytes.NewBuffer", "assign:buf:=bytes.NewBuffer(nonce)", "buf.Write",
+     "args:buf.Write(cm.subjDer)", "si.GetPrivate", "buf.Bytes", "schnorr.Sign",
+     "assign:sig,err:=schnorr.Sign(cm.suite,cm.si.GetPrivate(),buf.Bytes())", "if:(err!=nil)",
+     "return:nil,xerrors.Errorf(\"signature verification: %v\",err)",
+     "assign:serial:=new(big.Int)", "random.New", "random.Bits",
+     "assign:r:=random.Bits(128,true,random.New())", "serial.SetBytes",
+     "args:serial.SetBytes(r)", "url.Parse",
+     "assign:uri,err:=url.Parse(fmt.Sprintf(\"onet-pubkey::%v\",cm.subj.CommonName))",
+     "if:(err!=nil)", "return:nil,err", "time.Now", "Now().Add", "time.Now", "Now().Add",
+     "assign:tmpl:=&x509.Certificate{BasicConstraintsValid:true,IsCA:false,ExtKeyUsage:conv{x509.ExtKeyUsageServerAuth,x509.ExtKeyUsageClientAuth},NotAfter:time.Now().Add((2*time.Hour)),NotBefore:time.Now().Add((-5*time.Minute)),SerialNumber:serial,SignatureAlgorithm:x509.ECDSAWithSHA384,Subject:cm.subj,URIs:conv{uri},ExtraExtensions:conv{{Id:oidDedisSig,Critical:false,Value:sig}}}",
+     "if:testNoURIs", "assign:tmpl.URIs=nil", "k.Public", "x509.CreateCertificate",
+     "assign:cDer,err:=x509.CreateCertificate(rand.Reader,tmpl,tmpl,cm.k.Public(),cm.k)",
+     "if:(err!=nil)", "return:nil,xerrors.Errorf(\"certificate: %v\",err)",
+     "x509.ParseCertificates", "assign:certs,err:=x509.ParseCertificates(cDer)", "if:(err!=nil)",
+     "return:nil,xerrors.Errorf(\"certificate: %v\",err)", "if:(len(certs)<1)",
+     "return:nil,xerrors.New(\"no certificate found\")",
+     "return:&tls.Certificate{PrivateKey:cm.k,Certificate:conv{cDer},Leaf:certs[0]},nil"] := rfl
+
+theorem c08_shape_tls_certMaker_getCertificate :
+    Shapes.network_tls_certMaker_getCertificate =
+   ["cm.get", "assign:cert,err:=cm.get(conv(hello.ServerName))", "if:(err!=nil)",
+     "return:nil,xerrors.Errorf(\"\",err)", "return:cert,nil"] := rfl
+
+theorem c08_shape_tls_certMaker_getClientCertificate :
+    Shapes.network_tls_certMaker_getClientCertificate =
+   ["if:(len(req.AcceptableCAs)==0)", "return:nil,xerrors.New(\"\")", "cm.get",
+     "assign:cert,err:=cm.get(req.AcceptableCAs[0])", "if:(err!=nil)",
+     "return:nil,xerrors.Errorf(\"\",err)", "return:cert,nil"] := rfl
+
+theorem c08_shape_tls_pubFromCN :
+    Shapes.network_tls_pubFromCN =
+   ["if:(len(cn)<1)", "return:nil,xerrors.New(\"\")", "assign:tp:=cn[0]", "switch:tp{",
+     "case:'Z'", "hex.DecodeString", "assign:buf,err:=hex.DecodeString(cn[1:])", "if:(err!=nil)",
+     "return:nil,xerrors.Errorf(\"\",err)", "bytes.NewBuffer", "assign:r:=bytes.NewBuffer(buf)",
+     "suite.Point", "assign:pub:=suite.Point()", "pub.UnmarshalFrom",
+     "assign:_,err=pub.UnmarshalFrom(r)", "if:(err!=nil)", "return:nil,xerrors.Errorf(\"\",err)",
+     "return:pub,nil", "default", "encoding.StringHexToPoint",
+     "assign:pub,err:=encoding.StringHexToPoint(suite,cn)", "if:(err!=nil)",
+     "return:nil,xerrors.Errorf(\"\",err)", "return:pub,nil", "}"] := rfl
+
+theorem c08_shape_tls_pubToCN :
+    Shapes.network_tls_pubToCN =
+   ["assign:w:=&bytes.Buffer{}", "pub.MarshalTo", "args:pub.MarshalTo(w)",
+     "return:(\"Z\"+hex.EncodeToString(w.Bytes()))"] := rfl
+
+theorem c08_shape_tls_mkNonce :
+    Shapes.network_tls_mkNonce =
+   ["s.RandomStream", "random.Bytes", "args:random.Bytes(buf[:],s.RandomStream())",
+     "for:bytes.ContainsAny(buf[:],\".[]%\"){", "s.RandomStream", "random.Bytes",
+     "args:random.Bytes(buf[:],s.RandomStream())", "}", "return:buf[:]"] := rfl
+
+theorem c08_shape_tls_newCertMaker :
+    Shapes.network_tls_newCertMaker =
+   ["assign:cm:=&certMaker{si:si,suite:s}", "elliptic.P256", "ecdsa.GenerateKey",
+     "assign:k,err:=ecdsa.GenerateKey(elliptic.P256(),rand.Reader)", "if:(err!=nil)",
+     "return:nil,xerrors.Errorf(\"\",err)", "assign:cm.k=k", "pubToCN",
+     "assign:cm.subj=pkix.Name{CommonName:pubToCN(cm.si.Public)}", "asn1.Marshal",
+     "assign:der,err:=asn1.Marshal(cm.subj.CommonName)", "if:(err!=nil)",
+     "return:nil,xerrors.Errorf(\"\",err)", "assign:cm.subjDer=der", "return:cm,nil"] := rfl
+
+theorem c08_shape_tls_NewTLSListenerWithListenAddr :
+    Shapes.network_tls_NewTLSListenerWithListenAddr =
+   ["NewTCPListenerWithListenAddr",
+     "assign:tcp,err:=NewTCPListenerWithListenAddr(si.Address,suite,listenAddr)",
+     "if:(err!=nil)", "return:nil,xerrors.Errorf(\"tls listener: %v\",err)", "tlsConfig",
+     "assign:cfg,err:=tlsConfig(suite,si)", "if:(err!=nil)",
+     "return:nil,xerrors.Errorf(\"tls config: %v\",err)", "cloneTLSClientConfig",
+     "assign:cfg2:=cloneTLSClientConfig(cfg)", "x509.NewCertPool",
+     "assign:cfg2.ClientCAs=x509.NewCertPool()", "makeVerifier",
+     "assign:vrf,nonce:=makeVerifier(suite,nil)", "assign:cfg2.VerifyPeerCertificate=vrf",
+     "ClientCAs.AddCert", "args:cfg2.ClientCAs.AddCert(&x509.Certificate{RawSubject:nonce})",
+     "return:cfg2,nil", "assign:cfg.GetConfigForClient=func",
+     "assign:cfg.ClientAuth=tls.RequireAnyClientCert", "tls.NewListener",
+     "assign:tcp.listener=tls.NewListener(tcp.listener,cfg)", "return:tcp,nil"] := rfl
+
+theorem c08_shape_tls_NewTLSConn_b3 :
+    Shapes.network_tls_NewTLSConn_b3 =
+   ["if:(them.Address.ConnType()!=TLS)", "return:nil,xerrors.New(\"\")",
+     "if:(us.GetPrivate()==nil)", "return:nil,xerrors.New(\"\")", "tlsConfig",
+     "assign:cfg,err:=tlsConfig(suite,us)", "if:(err!=nil)",
+     "return:nil,xerrors.Errorf(\"\",err)", "makeVerifier",
+     "assign:vrf,nonce:=makeVerifier(suite,them)", "assign:cfg.VerifyPeerCertificate=vrf",
+     "Address.NetworkAddress", "assign:netAddr:=them.Address.NetworkAddress()", "assign:i:=1",
+     "for:(i<=MaxRetryConnect){", "assign:cfg.ServerName=string(nonce)", "tls.DialWithDialer",
+     "assign:c,err=tls.DialWithDialer(&net.Dialer{Timeout:dialTimeout},\"\",netAddr,cfg)",
+     "if:(err==nil)", "assign:conn=&TCPConn{conn:c,suite:suite}", "return:",
+     "assign:err=xerrors.Errorf(\"\",err)", "if:(i<MaxRetryConnect)", "time.Sleep", "assign:i++",
+     "}", "if:(err==nil)", "assign:err=xerrors.Errorf(\"\",ErrTimeout)", "return:"] := rfl
+
+theorem c08_shape_tls_tlsConfig :
+    Shapes.network_tls_tlsConfig =
+   ["newCertMaker", "assign:cm,err:=newCertMaker(suite,us)", "if:(err!=nil)",
+     "return:nil,xerrors.Errorf(\"\",err)",
+     "return:&tls.Config{GetCertificate:cm.getCertificate,GetClientCertificate:cm.getClientCertificate,InsecureSkipVerify:true,SessionTicketsDisabled:true},nil"] := rfl
+
+theorem c08_shape_tls_cloneTLSClientConfig :
+    Shapes.network_tls_cloneTLSClientConfig =
+   ["if:(cfg==nil)", "return:&tls.Config{}",
+     "return:&tls.Config{Rand:cfg.Rand,Time:cfg.Time,Certificates:cfg.Certificates,NameToCertificate:cfg.NameToCertificate,GetCertificate:cfg.GetCertificate,RootCAs:cfg.RootCAs,NextProtos:cfg.NextProtos,ServerName:cfg.ServerName,ClientAuth:cfg.ClientAuth,ClientCAs:cfg.ClientCAs,InsecureSkipVerify:cfg.InsecureSkipVerify,CipherSuites:cfg.CipherSuites,PreferServerCipherSuites:cfg.PreferServerCipherSuites,ClientSessionCache:cfg.ClientSessionCache,MinVersion:cfg.MinVersion,MaxVersion:cfg.MaxVersion,CurvePreferences:cfg.CurvePreferences,SessionTicketsDisabled:cfg.SessionTicketsDisabled}"] := rfl
+
+theorem c08_shape_router_Router_receiveServerIdentity :
+    Shapes.network_router_Router_receiveServerIdentity =
+   ["c.Receive", "assign:nm,err:=c.Receive()", "if:(err!=nil)",
+     "return:nil,xerrors.Errorf(\"\",err)", "if:(nm.MsgType!=ServerIdentityType)",
+     "return:nil,xerrors.Errorf(\"\",nm.MsgType.String())",
+     "assign:dst:=nm.Msg.(ServerIdentity)", "assign:tcpConn,ok:=c.(TCPConn)", "if:ok",
+     "assign:tlsConn,ok:=tcpConn.conn.(tls.Conn)", "if:ok", "tlsConn.ConnectionState",
+     "assign:cs:=tlsConn.ConnectionState()", "if:(len(cs.PeerCertificates)==0)",
+     "return:nil,xerrors.New(\"\")", "pubFromCN",
+     "assign:pub,err:=pubFromCN(tcpConn.suite,cs.PeerCertificates[0].Subject.CommonName)",
+     "if:(err!=nil)", "return:nil,xerrors.Errorf(\"\",err)", "if:!pub.Equal(dst.Public)",
+     "return:nil,xerrors.New(\"\")", "else", "if:!r.UnauthOk", "return:dst,nil"] := rfl
+
+
 end C08
